@@ -541,6 +541,31 @@ func c12R3(p *engine.Prog, r *engine.Report, consts map[int64]string, vtab map[i
 		}
 	}
 	apply, _ := p.Func("blockchain", "Blockchain.applyTxOnState")
+	// what ValidateTx itself runs (static callees, validators cut) runs before or without the
+	// per-type validator: it cannot lean on the validator's nil test
+	preValidation := map[*ssa.Function]bool{}
+	if vt, _ := p.Func("blockchain/validation", "ValidateTx"); vt != nil {
+		isValidator := map[*ssa.Function]bool{}
+		for _, v := range vtab {
+			isValidator[v] = true
+		}
+		work := []*ssa.Function{vt}
+		preValidation[vt] = true
+		for len(work) > 0 {
+			f := work[len(work)-1]
+			work = work[:len(work)-1]
+			for _, c := range engine.Calls(f) {
+				cal := c.Common().StaticCallee()
+				if cal == nil || preValidation[cal] || isValidator[cal] || !engine.IsRepoPkg(engine.FuncPkg(cal)) {
+					continue
+				}
+				preValidation[cal] = true
+				work = append(work, cal)
+			}
+		}
+	} else {
+		r.Und("C12-R3", "ValidateTx", "", "blockchain/validation.ValidateTx not found")
+	}
 	n := 0
 	scan := []string{"blockchain", "vm", "vm/wasm", "vm/env", "blockchain/fee", "core/ceremony", "core/flip", "core/mempool"}
 	for _, pkg := range scan {
@@ -600,6 +625,10 @@ func c12R3(p *engine.Prog, r *engine.Report, consts map[int64]string, vtab map[i
 						r.Check(ok, "C12-R3", key+" in arm", p.InstrPos(c), "validator of the arm's type rejects a nil "+short, "attachment dereferenced at "+unguarded+" without nil test; validator(s) of "+strings.Join(bad, ",")+" do not reject nil")
 						continue
 					}
+				}
+				if preValidation[topParent(f)] {
+					r.Bad("C12-R3", key, p.InstrPos(c), "attachment dereferenced at "+unguarded+" without nil test in code ValidateTx runs before (or without) the per-type validator: an undecodable payload panics the validating goroutine")
+					continue
 				}
 				// elsewhere: some validator must guarantee this parse function
 				ok = len(guarantee[id]) > 0
